@@ -3,6 +3,7 @@ package sim
 import (
 	"context"
 	"fmt"
+	"io"
 	"os"
 	"path/filepath"
 	"sort"
@@ -32,11 +33,14 @@ import (
 	"github.com/attestantio/dirk/services/walletmanager"
 	standardwalletmanager "github.com/attestantio/dirk/services/walletmanager/standard"
 	"github.com/rs/zerolog"
+	zerologger "github.com/rs/zerolog/log"
 	e2wtypes "github.com/wealdtech/go-eth2-wallet-types/v2"
 )
 
 func init() {
 	zerolog.SetGlobalLevel(zerolog.Disabled)
+	// whatever the services write goes nowhere; whether they write is the run's log level (worker_test.go)
+	zerologger.Logger = zerolog.New(io.Discard)
 }
 
 // FullPermissions gives the named clients every operation on every wallet.
@@ -118,7 +122,7 @@ func NewInstance(s *Sched, name string, cfg InstCfg) (*Instance, error) {
 		standardrules.WithStoragePath(cfg.Dir),
 		standardrules.WithAdminIPs(cfg.AdminIPs),
 		standardrules.WithPeriodicPruning(cfg.PeriodicPruning),
-		standardrules.WithLogLevel(zerolog.Disabled),
+		standardrules.WithLogLevel(zerolog.GlobalLevel()),
 	)
 	if err != nil {
 		return fail(fmt.Errorf("rules: %w", err))
